@@ -1319,7 +1319,10 @@ func (e *Engine) binop(op token.Token, t types.Type, x, y value, yt types.Type) 
 	}
 	switch xv := x.(type) {
 	case *Term:
-		yv := y.(*Term)
+		yv, okt := y.(*Term)
+		if !okt {
+			e.unsupported("integer/float mixed operation")
+		}
 		_, signed, _ := typeWidth(t)
 		ts := e.ts
 		switch op {
@@ -1403,7 +1406,10 @@ func (e *Engine) binop(op token.Token, t types.Type, x, y value, yt types.Type) 
 			return e.ts.Not(e.strLess(xv, yv))
 		}
 	case float64:
-		yv := y.(float64)
+		yv, okf := y.(float64)
+		if !okf {
+			e.unsupported("floating point arithmetic on a symbolic value")
+		}
 		switch op {
 		case token.ADD:
 			return xv + yv
